@@ -122,7 +122,6 @@ func VariantMismatch(vary []string, a, b http.Header) (fields []string, star boo
 	return fields, star
 }
 
-
 func validQValue(s string) bool {
 	if s == "" {
 		return false
